@@ -36,6 +36,7 @@ def run(idx, rep, tier):
     c08.byline(idx, rep, "R3", "R3", tier, scenarios=("plain",), aspects=("schedule",))
     r4(idx, rep)
     r5(idx, rep)
+    spooler_table(idx, rep, "R1")
     r6(idx, rep)
     rep.stats["exhaustive"] = True
 
@@ -208,6 +209,44 @@ def r5(idx, rep):
     w = [c for c in walk_no_nested(fc.node) if isinstance(c, ast.Call) and call_name(c) == "writer" and c.keywords]
     kw2 = {k.arg: unparse(k.value) for k in w[0].keywords} if w else None
     rep.check(kw2 == want, "R5", f"{fc.file}::ResultSerializer._csv_writer dialect", f"{kw2}", K.where(fc, fc.node))
+
+
+def spooler_table(idx, rep, rid):
+    """CsvLineSpooler.append writes the line as it is when appended (no buffering of references that a later rewrite could change)"""
+    fa = idx.method("CsvLineSpooler", "append")
+    fc = idx.method("CsvLineSpooler", "close")
+    rep.analysed(fa, fc)
+    import copy as _copy
+    written = []
+
+    def load_if(i, c, r, a, k):
+        i.store["self.writer"] = Obj("writer")
+        i.store["self.sink"] = Obj("sink")
+
+    def rows(i, c, r, a, k):
+        written.extend(_copy.deepcopy(list(a[0])))
+
+    def row(i, c, r, a, k):
+        written.append(_copy.deepcopy(a[0]))
+
+    it = Interp(idx, types={"self": "CsvLineSpooler"}, unknown_calls="residual", inline_all={"CsvLineSpooler", "LineSpooler"},
+                handlers={"self.load_if": load_if, "writer.writerows": rows, "writer.writerow": row, "sink.close": lambda i, c, r, a, k: None, "sink.flush": lambda i, c, r, a, k: None})
+    st = K.instance_store(idx, "CsvLineSpooler")
+    st.update(K.instance_store(idx, "LineSpooler"))
+    st.update({"self.writer": None, "self.sink": None, "self._count": 0, "self.closed": False})
+
+    def program(it):
+        l1 = ["a", "b"]
+        it.call_function(fa, {"line": l1}, "self")
+        l1[1] = "REWRITTEN-LATER"          # a sibling csvpath rewrites the shared line in place after it was collected
+        it.call_function(fa, {"line": ["c", "d"]}, "self")
+        it.call_function(fc, {}, "self")
+        return None
+
+    ps = it.run_program(program, st)
+    ok = len(ps) == 1 and ps[0].result[0] == "return" and written == [["a", "b"], ["c", "d"]]
+    rep.check(ok, rid, f"{fa.file}::CsvLineSpooler.append writes the line at append time",
+              f"data.csv would hold {written}; the run collected [['a', 'b'], ['c', 'd']] (a line rewritten after it was collected must not change what was archived)", K.where(fa, fa.node))
 
 
 def r6(idx, rep):
